@@ -9,7 +9,7 @@ use std::rc::Rc;
 use parol::parser::parol_grammar::GrammarType;
 use parol::{
     CommonGeneratorConfig, GrammarConfig, ParserGeneratorConfig, calculate_lalr1_parse_table,
-    calculate_lookahead_dfas, check_and_transform_grammar, generate_lalr1_parser_source,
+    calculate_lookahead_dfas, generate_lalr1_parser_source,
     generate_lexer_source, generate_parser_source, obtain_grammar_config_from_string,
 };
 use parol_runtime::lr_parser::{LR1State, LRAction, LRParseTable, LRParser, LRProduction};
@@ -105,7 +105,9 @@ pub fn pipeline(par: &str, k_limit: usize, cfg: &GenCfg) -> Result<Generated, Pi
     let mut gc = obtain_grammar_config_from_string(par, false)
         .map_err(|e| PipeErr { stage: Stage::Parse, msg: fmt_err(&e) })?;
     let cfg0 = gc.cfg.clone();
-    let t = check_and_transform_grammar(&gc.cfg, gc.grammar_type)
+    // as GrammarGenerator::expand does
+    let ignored: std::collections::BTreeSet<String> = gc.unreachable_non_terminals_to_ignore.iter().cloned().collect();
+    let t = parol::generators::grammar_trans::check_and_transform_grammar_with_ignored(&gc.cfg, gc.grammar_type, &ignored)
         .map_err(|e| PipeErr { stage: Stage::Check, msg: fmt_err(&e) })?;
     gc.update_cfg(t);
     let analysis = match gc.grammar_type {
